@@ -31,11 +31,10 @@ def oz(v):
     return [0] if v is None else [1, v]
 
 
-MAX_EVENTS = 6000        # a correct emit is finite; a run past this many events is a runaway loop
-
-
 class Runaway(BaseException):
-    """the implementation keeps calling handlers without end (not an Exception: nothing swallows it)"""
+    """The case's budget of callback invocations is used up: the callback refuses to run.  Scripts that
+    connect handlers and emit recursively grow exponentially (and a broken emit may never end), so every
+    case carries a budget "maxcalls"; the model has the same budget.  Not an Exception: nothing swallows it."""
 
 
 class W:
@@ -76,8 +75,9 @@ class CB:
                 flat += [0, a]
             else:
                 flat += [2, 0]
-        if len(run.trace) > MAX_EVENTS:
+        if run.ncalls >= run.case["maxcalls"]:
             raise Runaway()
+        run.ncalls += 1
         run.trace.append([7, self.serial, self.cb, len(args)] + flat)
         ret, ops = run.case["cbs"][self.cb]
         for op in ops:
@@ -91,6 +91,8 @@ def errcode(e):
         return -1
     if isinstance(e, RecursionError):
         return -3
+    if isinstance(e, Runaway):
+        return -8
     return -9
 
 
@@ -111,6 +113,7 @@ class Run:
         self.sig = sig
         self.trace = []
         self.depth = 0
+        self.ncalls = 0
         self.fuel = case["fuel"]
         self.classes = [mk_cls(t) for t in case["classes"]]
         self.senders = [self.classes[c]() for c in case["senders"]]
@@ -177,12 +180,9 @@ class Run:
             self.depth += 1
             try:
                 r = sig.emit_signal(self.senders[s], sname(n), *args)
-            except Exception as e:
+            except (Exception, Runaway) as e:
                 self.depth -= 1
                 t.append([6, errcode(e)])
-                raise
-            except Runaway:
-                t.append([6, -8])
                 raise
             self.depth -= 1
             t.append([6, 1 if r is True else 0 if r is False else 3 if r else 2])
@@ -205,10 +205,7 @@ class Run:
                 self.do_op(op)
             except core.MachineryError:
                 raise
-            except Runaway:
-                self.trace.append([12])
-                break
-            except Exception:
+            except (Exception, Runaway):
                 pass        # logged where it happened; leaving this block clears the traceback
 
     def final(self):
@@ -276,7 +273,7 @@ class C14(core.Check):
                   "correspondence, not proved against CPython), the Python oracle, CPython reference counting / gc.collect() as "
                   "the notion of 'garbage-collected'.  Assumes callbacks that do not catch exceptions of nested operations; "
                   "senders stay alive during a history; callbacks compare equal by callback id.")
-    rule = ("case = (fuel, sender classes with truthiness, senders, weakly referencable objects (plain or in a reference "
+    rule = ("case = (fuel = emit nesting bound, maxcalls = total callback-invocation budget, sender classes with truthiness, senders, weakly referencable objects (plain or in a reference "
             "cycle), callback scripts, top-level operation list) over register/connect/disconnect/disconnect_by_key/emit/"
             "drop-object/gc.collect; exhaustive scenarios: n<=3 (quick) or n<=4 (thorough) handlers x one or two scripted "
             "behaviours x positions x targets x weak-argument patterns x return patterns, plus random histories; "
@@ -295,7 +292,8 @@ class C14(core.Check):
         "senders stay referenced during a history (they are dropped only in the final heap probe)",
         "callbacks are compared by ==; the harness callbacks are equal exactly when their callback ids are",
         "signal names, user arguments and emitted arguments are integers/strings compared by ==",
-        "theorems about emit are about emits that return normally (no exception, in particular fuel not exhausted)",
+        "theorems about emit are about emits that return normally (no exception; in particular the nesting fuel and the "
+        "per-case callback-invocation budget, which the harness imposes on implementation and model alike, are not exhausted)",
     ]
 
     # ---------- implementation ----------
@@ -357,7 +355,7 @@ class C14(core.Check):
         raise core.MachineryError("unknown op " + str(k))
 
     def encode(self, case):
-        l = [case["fuel"], case["nnames"]]
+        l = [case["fuel"], case["nnames"], case["maxcalls"]]
         l += [len(case["classes"])] + [1 if t else 0 for t in case["classes"]]
         l += [len(case["senders"])] + list(case["senders"])
         l += [len(case["objs"])] + [1 if c else 0 for c in case["objs"]]
@@ -576,8 +574,6 @@ class C14(core.Check):
                             lose(h)
             elif t == 11:
                 note("gc_collect")
-            elif t == 12:
-                msgs.append(f"an emit did not finish within {MAX_EVENTS} events: handlers are called again and again")
         # ---- heap clause (oracle-only) ----
         heap = res.get("heap", {})
         for o in sorted(killed):
@@ -636,7 +632,7 @@ class C14(core.Check):
             ops.append(["gc"])
         ops.append(["emit", 0, 0, []])
         ops.append(["emit", 0, 1, [9]])
-        return {"kind": "scenario", "fuel": 2, "nnames": 3, "classes": [0 if falsy else 1], "senders": [0],
+        return {"kind": "scenario", "fuel": 2, "nnames": 3, "maxcalls": 200, "classes": [0 if falsy else 1], "senders": [0],
                 "objs": [0, 1, 0], "cbs": cbs, "ops": ops}
 
     @staticmethod
@@ -773,7 +769,8 @@ class C14(core.Check):
         for s in range(ns):
             for n in range(nn):
                 ops.append(["emit", s, n, [1]])
-        return {"kind": "random", "fuel": rng.choice([0, 1, 2, 2, 3, 3]), "nnames": nn, "classes": classes, "senders": senders,
+        return {"kind": "random", "fuel": rng.choice([0, 1, 2, 2, 3, 3]), "nnames": nn,
+                "maxcalls": rng.choice([3, 40, 150, 150, 150]), "classes": classes, "senders": senders,
                 "objs": objs, "cbs": cbs, "ops": ops}
 
     def cases(self, rng, tier):
